@@ -12,6 +12,7 @@ from its queue, any timer firing, the shutdown being seen, the tee dropping.
 -/
 import SerfProofs.Lemmas.Pipeline
 import SerfProofs.Lemmas.PipelineLast
+import SerfModel.Gen.MemberLocks
 namespace SerfProofs.C16
 open SerfModel SerfModel.MemberCoalesce SerfModel.Pipeline SerfProofs.Pipeline
 
@@ -106,6 +107,33 @@ theorem C16_exact_without_coalescing (snap ucoal : Bool) (emitted : List PEv) (s
   have e2 := drained_flat _ hdr m
   simp only [runPipeline] at e2 ⊢
   rw [← e2, e1, h0]
+
+/-! ### Tie of the premise "emitted history = order of the status changes" to the source
+
+The theorems above take the emitted history as given.  It is ordered like the status changes of
+each member exactly when every handler applies the change and sends the event inside ONE
+exclusive critical section of `memberLock`.  `SerfModel.Gen.MemberLocks.handlers` is regenerated
+from serf/*.go on every run (extract/memberlocks.go): for every method of `*Serf` that sends a
+MemberEvent on `s.config.EventCh`, and every method through which such a method is reached
+without locking, how it uses memberLock. -/
+
+/-- **Every MemberEvent is sent while memberLock is held exclusively**: by the sending method
+itself (`Lock()` directly followed by `defer Unlock()`, memberLock not touched again, the send
+after the lock and not in a `go`/closure), or — for `eraseNode`, reached through `handlePrune`
+and `reap` — at every call site, inside the caller's section. -/
+theorem C16_events_sent_under_member_lock :
+    SerfModel.MemberLocks.allSendsUnderLock SerfModel.Gen.MemberLocks.handlers = true := by decide
+
+/-- The four status handlers and `eraseNode` are the senders the fact is about (so a renamed or
+split handler cannot make the previous theorem vacuous). -/
+theorem C16_status_handlers_send_under_lock :
+    (["handleNodeJoin", "handleNodeLeave", "handleNodeUpdate", "handleNodeLeaveIntent", "eraseNode"].all
+      (SerfModel.MemberLocks.sendsUnderLock SerfModel.Gen.MemberLocks.handlers)) = true := by decide
+
+-- the predicate is not vacuous: the shape of an early unlock before the send is rejected
+example : SerfModel.MemberLocks.allSendsUnderLock
+    [{ name := "handleNodeLeave", sends := 1, lockCall := "Lock", shape := "other", earlyUnlock := false,
+       sendsInside := false, callSites := [] }] = false := by decide
 
 /-! ### Non-vacuity: a run through all four stages with coalescing, a drop and a suppression -/
 
